@@ -93,8 +93,9 @@ class Row(tuple):
         return instance
 
     def get(self, item, default=None):
-        index = self._fields.index(item)
-        if index == -1:
+        try:
+            index = self._fields.index(item)
+        except ValueError:
             return default
         return self[index]
 
